@@ -15,7 +15,7 @@ impl Check for C14 {
         vec![]
     }
     fn rule(&self) -> &'static str {
-        "Random programs over the clause grammar: fresh `|x, y| { }`, `==`, `!=`, `[g, ...]` conjunctions at top level and directly inside operator bodies, conde with 2-4 clauses, conda / condu / onceo with bracketed `[head, rest...]` clauses whose head may be the literal true/false (also as the main goal of dedicated programs), closure { }, loop { } prefixes (infinite: a 40-answer prefix is checked for soundness), relation calls (member, append, cons, first) with tree-term and `{expr}` arguments, true/false, all four literal kinds incl. the empty string and strings with spaces, nested proper/improper lists (improper inside proper and vice versa), `_` in every position incl. improper tails, compound constructors (unnamed Pair/Triple structs and Rust tuples) at the top of an argument, 1-4 query variables DECLARED in an order different from their use order. Each AST is emitted as Rust source (proto_vulcan_query!), compiled against the current tree and run: the answers per query variable, in declaration order, must equal the reference evaluation of the AST and the API-built twin; the Display of the result struct must list the variables in declaration order; every answer variable must be reified; a second next() after None must return None. Separately, 400-4000 random terms are written with lterm! and compared structurally with the written term. A generated program that fails to compile while the library compiles is a violation. Distinct = distinct AST / term; non-trivial = the reference has at least one answer."
+        "Random programs over the clause grammar: fresh `|x, y| { }`, `==`, `!=`, `[g, ...]` conjunctions at top level and directly inside operator bodies, conde with 2-4 clauses, conda / condu / onceo with bracketed `[head, rest...]` clauses whose head may be the literal true/false (also as the main goal of dedicated programs), closure { }, loop { } prefixes (infinite: a 40-answer prefix is checked for soundness), relation calls (member, append, cons, first) with tree-term and `{expr}` arguments, true/false, all four literal kinds incl. the empty string and strings with spaces, nested proper/improper lists (improper inside proper and vice versa), `_` in every position incl. improper tails, `x == <term with _>` followed by `x != <instance of it>` (a constraint left on an anonymous variable), compound constructors (unnamed Pair/Triple structs and Rust tuples) at the top of an argument, 1-4 query variables DECLARED in an order different from their use order. Each AST is emitted as Rust source (proto_vulcan_query!), compiled against the current tree and run: the answers per query variable, in declaration order, must equal the reference evaluation of the AST and the API-built twin; the Display of the result struct must list the variables in declaration order; every answer variable must be reified; a second next() after None must return None. Separately, 400-4000 random terms are written with lterm! and compared structurally with the written term. A generated program that fails to compile while the library compiles is a violation. Distinct = distinct AST / term; non-trivial = the reference has at least one answer."
     }
     fn assumptions(&self) -> Vec<String> {
         vec!["reference: pvmon::refsem".into(), "the emitter stays inside the documented grammar (non-negative integer literals, compounds only at the top of an argument)".into()]
